@@ -10,3 +10,7 @@ def showCell (t : Table) (c : Cell) : String := s!"{t.pkg} {t.fn} {c.caseName}({
 #eval ((tables.filter isPrefixTable).flatMap fun t => (t.cells.filter fun c => prefixName c.caseName != some c.retVal).map fun c =>
   s!"UNEXPECTED: enum-table variant/prefix-type convention: {showCell t c}").forM IO.println
 #eval ((serializerTables.filter fun f => !(tables.any fun g => isPair f g)).map fun f => s!"UNEXPECTED: enum-table serializer table without parser partner: {f.pkg} {f.fn}").forM IO.println
+#eval (pairs.flatMap fun (f, g) => if !f.prefixRes then [] else (g.cells.filter fun c => match lookup f c.retVal with
+    | some back => !samePrefixBytes c.caseVal back
+    | none => true).map fun c =>
+  s!"UNEXPECTED: enum-table parser maps prefix type to a variant with different output-prefix bytes: {showCell g c}; it re-serialises as {lookup f c.retVal}").forM IO.println
